@@ -203,6 +203,10 @@ class Interp:
                               (closure_frame.qualname or '') + '.' + (name or '<lambda>'))
             if isinstance(node, ast.Lambda):
                 return self.eval(node.body, frame)
+            if fobj is not None and fobj is self.top:
+                for gk, gv in getattr(self, 'ghost_locals', {}).items():
+                    local.setdefault(gk, gv)
+                self.top_locals = local
             try:
                 self.exec_block(node.body, frame)
             except _Return as r:
@@ -890,6 +894,16 @@ class Interp:
         return InterpFunction(node, frame)
 
     def eval_IfExp(self, node, frame):
+        if self.ctx.no_fork:
+            c = truth_term(self.ctx, self.eval(node.test, frame))
+            if isinstance(c, bool):
+                return self.eval(node.body if c else node.orelse, frame)
+            a, b = self.eval(node.body, frame), self.eval(node.orelse, frame)
+            if isinstance(a, (bool, SBool)) and isinstance(b, (bool, SBool)):
+                return wrap_bool(z3.If(c, ops.bool_term(a), ops.bool_term(b)))
+            if isinstance(a, (int, SInt)) and isinstance(b, (int, SInt)):
+                return wrap_int(z3.If(c, int_term(a), int_term(b)))
+            raise Unsupported('conditional expression of non-scalar values inside an invariant')
         if truth(self.ctx, self.eval(node.test, frame)):
             return self.eval(node.body, frame)
         return self.eval(node.orelse, frame)
@@ -901,6 +915,21 @@ class Interp:
 
     def eval_BoolOp(self, node, frame):
         is_and = isinstance(node.op, ast.And)
+        if self.ctx.no_fork:
+            # invariants / quantifier bodies: build the formula, no path split (operands must be side-effect free)
+            terms = []
+            for e in node.values:
+                t = truth_term(self.ctx, self.eval(e, frame))
+                if isinstance(t, bool):
+                    if is_and and not t:
+                        return False
+                    if not is_and and t:
+                        return True
+                    continue
+                terms.append(t)
+            if not terms:
+                return is_and
+            return wrap_bool(z3.And(*terms) if is_and else z3.Or(*terms))
         v = None
         for i, e in enumerate(node.values):
             v = self.eval(e, frame)
@@ -959,6 +988,15 @@ class Interp:
         for i, (op, rn) in enumerate(zip(node.ops, node.comparators)):
             right = self.eval(rn, frame)
             r = self.compare(_CMPOPS[type(op)], left, right)
+            if self.ctx.no_fork:
+                t = truth_term(self.ctx, r)
+                result = t if result is True else (wrap_bool(z3.And(ops.bool_term(result) if not isinstance(result, z3.BoolRef) else result, t)) if not isinstance(t, bool) or not t else result)
+                if isinstance(t, bool) and not t:
+                    return False
+                if i == len(node.ops) - 1:
+                    return result if not isinstance(result, z3.BoolRef) else wrap_bool(result)
+                left = right
+                continue
             if i == len(node.ops) - 1:
                 return r
             if not truth(self.ctx, r):
